@@ -107,8 +107,16 @@ static std::string integrity_fail(const uint8_t *S, size_t n) {
 		if (e.type == 0x02 && e.data_len >= 1) path_hdr = true;
 	}
 	bool path_source = path_hdr || inname_sep;
+	// Amiga LHA writes some directories as -lh0- entries without a name and with length 0: they are directories
+	// (OS byte: level 1 behind the CRC, levels 2/3 at offset 23; a level-0 header has none)
+	if (!is_dir && level >= 1 && !inname_nonempty && !name_hdr && !memcmp(S + 2, "-lh0-", 5) && u32at(S, 11) == 0) {
+		uint8_t os = level == 1 ? S[24 + S[21]] : S[23];
+		if (os == 'A') is_dir = true;
+	}
 	if (!is_dir) {
-		if (!inname_nonempty && !name_hdr && !path_source) return "file entry without a name";
+		// no byte of an in-header name and no file-name header: there is nothing a file name could come from, whatever
+		// path the header carries
+		if (!inname_nonempty && !name_hdr) return "file entry without a name";
 	} else {
 		bool symlink_bits = false;
 		for (auto &e : ext)
@@ -128,6 +136,35 @@ static std::string integrity_fail(const uint8_t *S, size_t n) {
 		if (!path_source && !symlink_bits) return "directory entry without a path";
 	}
 	return "";
+}
+
+// offsets (relative to the header start) of the two data bytes of every common-CRC extended header of a well-formed header
+static std::vector<size_t> common_crc_offsets(const uint8_t *S, size_t n) {
+	std::vector<size_t> out;
+	if (n < 26) return out;
+	int level = S[20];
+	if (level == 1) {
+		size_t hl = S[0];
+		if (hl + 2 > n) return out;
+		size_t next = u16at(S, hl), pos = hl + 2;
+		while (next >= 3 && pos + next <= n) {
+			if (S[pos] == 0x00 && next >= 5) out.push_back(pos + 1);
+			size_t nn = u16at(S, pos + next - 2);
+			pos += next;
+			next = nn;
+		}
+	} else if (level == 2 || level == 3) {
+		size_t fs = level == 2 ? 2 : 4, off = level == 2 ? 24 : 28;
+		size_t total = level == 2 ? u16at(S, 0) : u32at(S, 24);
+		if (total > n) return out;
+		while (off + fs <= total) {
+			size_t len = level == 2 ? u16at(S, off) : u32at(S, off);
+			if (len < fs + 1 || off + len > total) break;
+			if (S[off + fs] == 0x00 && len >= fs + 3) out.push_back(off + fs + 1);
+			off += len;
+		}
+	}
+	return out;
 }
 
 // ---------------------------------------------------------------- C12
@@ -174,6 +211,13 @@ struct C12 : Scenario {
 		else if (kind == 4) m = gen_dir(rng, o.level, gen_name(rng, 6) + "/", o);
 		else m = gen_symlink(rng, o.level, dir, gen_name(rng, 5), rng.chance(1, 2) ? "../" + gen_name(rng, 4) : gen_name(rng, 6), o);
 		if (m.os == 'K' && m.level == 2) m.os = 'U';
+		if (m.kind == 'd' && m.level >= 1 && rng.chance(1, 3)) {
+			// the way some Amiga archivers write a directory: method -lh0-, no name, both lengths 0, OS byte 'A', path header
+			m.method = "-lh0-";
+			m.os = 'A';
+			m.ext.erase(std::remove_if(m.ext.begin(), m.ext.end(), [](const ExtHdr &e) { return e.type >= 0x50 && e.type <= 0x54; }), m.ext.end());
+			m.inname.clear();
+		}
 		if (m.level <= 1 && m.kind == 'f' && rng.chance(1, 3)) {
 			// the barest form of a level-0/1 header: name in the base header, no extended area, no extended headers, and
 			// an OS byte of zero now and then - nothing but the base header's own fields stands between a wrong length
@@ -194,7 +238,7 @@ struct C12 : Scenario {
 			for (size_t i = 0; i < n; ++i) e.data.push_back(rng.byte());
 			m.ext.insert(m.ext.begin() + (long) rng.below(m.ext.size() + 1), e);
 		}
-		if (m.level == 2 && rng.chance(1, 5)) {
+		if (m.level == 2 && m.os != 'A' && rng.chance(1, 5)) {
 			// LHA for OS-9/68k writes level-2 headers whose length field does not count its own two bytes
 			m.os = 'K';
 			Bytes tmp; MemberLayout lay;
@@ -339,7 +383,9 @@ struct C12 : Scenario {
 			uint64_t cur = 0;
 			for (size_t i = 0; i < fd.len; ++i) cur |= (uint64_t) a.bytes[hs + fd.off + i] << (8 * i);
 			uint64_t maxv = (1ULL << (8 * fd.len)) - 1;
-			uint64_t vals[] = {cur + 1, cur - 1, cur + 2, cur - 2, 0, maxv, cur + 3, maxv - 1, cur + 4, 1, 2, 3, 4, 5};
+			std::vector<uint64_t> vals = {cur + 1, cur - 1, cur + 2, cur - 2, 0, maxv, cur + 3, maxv - 1, cur + 4, 1, 2, 3, 4, 5};
+			// 32-bit size fields: values that wrap an offset computed in 32 bits back onto the header (2^32 - k)
+			if (fd.len == 4 && fn != "packed") for (uint64_t k = 2; k <= 72; ++k) vals.push_back(maxv + 1 - k);
 			for (uint64_t nv : vals) {
 				nv &= maxv;
 				if (nv == cur || !res.ok) continue;
@@ -349,6 +395,21 @@ struct C12 : Scenario {
 				for (size_t i = 0; i < fd.len; ++i) w[hs + fd.off + i] = q.val[i];
 				++evals;
 				eval(p, w, hs, ki++, strf("field %s := %llu", fn.c_str(), (unsigned long long) nv), res, narrowed, &q, -1, nfail, npass, acc);
+			}
+		}
+		// the stored common CRC as a whole: zero, all ones, byte-swapped, off by one (single-byte substitutions reach only
+		// values that share a byte with the right one)
+		for (size_t co : common_crc_offsets(a.bytes.data() + hs, a.bytes.size() - hs)) {
+			if (co + 2 > L.hdr_len) continue;
+			unsigned cur = u16at(a.bytes.data() + hs, co);
+			unsigned vals[] = {0x0000, 0xffff, ((cur & 0xff) << 8) | (cur >> 8), (cur + 1) & 0xffff, (cur ^ 0x8001) & 0xffff, (~cur) & 0xffff};
+			for (unsigned nv : vals) {
+				if (nv == cur || !res.ok) continue;
+				Patch q; q.member = 1; q.off = (uint32_t) co; q.op = '='; q.val = {(uint8_t)(nv & 0xff), (uint8_t)(nv >> 8)};
+				Bytes w = a.bytes;
+				w[hs + co] = q.val[0]; w[hs + co + 1] = q.val[1];
+				++evals;
+				eval(p, w, hs, ki++, strf("common CRC := %04x", nv), res, narrowed, &q, -1, nfail, npass, acc);
 			}
 		}
 		count("fault.D-FIELD", evals - before);
